@@ -139,6 +139,9 @@ def run(analysis: Analysis, tier: str) -> RuleResult:
     # before its single final save (an id reserved after the last save would be handed out again after restart)
     c14.alert_and_stop(analysis, res, "C06-R5", "C06-R5")
     c14.pump_stops(analysis, res, "C06-R5")
+    from . import c07
+
+    c07.hold_queue_plain(analysis, res, "C06-R5")
     c14.flag_writers(analysis, res)
     for o in res.obs[before:]:
         o.rule = "C06-R5"
